@@ -116,6 +116,9 @@ m("c18-alwayserror-counts", "rom.go", "func (alwaysError) Read(p []byte) (int, e
 m("c01-inc16-wrap-z", "emulator/cpualt/cpu.go", "\t\t\tvalue := cpu.cmdRead16() + 1\n\t\t\tcpu.cmdWrite16(value)\n\t\t\tcpu.setZN16(value)", "\t\t\tvalue := cpu.cmdRead16() + 1\n\t\t\tcpu.cmdWrite16(value)\n\t\t\tcpu.setZN16(value)\n\t\t\tif value == 0 {\n\t\t\t\tcpu.Z = 0\n\t\t\t}", ["C01", "C02"])
 m("c01-cpx16-equal-carry", "emulator/cpu65c816/cpu.go", "func (cpu *CPU) compare16(a, b uint16) {\n\tcpu.setZN16(a - b)\n\tif a >= b {", "func (cpu *CPU) compare16(a, b uint16) {\n\tcpu.setZN16(a - b)\n\tif a > b || (a == b && a != 0x8000) {", ["C01"])
 
+m("c02-irq-vector-alt", "emulator/cpualt/cpu.go", "\tcpu.PC = cpu.Bus.nRead16_cross(0x00, 0xFFEE)", "\tcpu.PC = cpu.Bus.nRead16_cross(0x00, 0xFFFE)", ["C02"])
+m("c02-nmi-pushes-k-alt", "emulator/cpualt/cpu.go", "func (cpu *CPU) nmi() {\n\tcpu.push16(cpu.PC)", "func (cpu *CPU) nmi() {\n\tcpu.push(cpu.RK)\n\tcpu.push16(cpu.PC)", ["C02"])
+
 def sh(cmd, **kw):
     return subprocess.run(cmd, shell=True, text=True, capture_output=True, **kw)
 
